@@ -871,8 +871,13 @@ func genHist(rng *rand.Rand, class string, nops int) input {
 				v = 2147483648 + int64(rng.Intn(5)) // wraps
 			case 3:
 				v = int64(rng.Int31()) * int64(rng.Intn(70000)) // beyond int32
+			case 4, 5:
+				v = 0 // back to 0: the last saved version wins, 0 included
 			}
 			in.Ops = append(in.Ops, opIn{Kind: "savever", Svc: s, Ver: v})
+			if v == 0 && rng.Intn(2) == 0 {
+				in.Ops = append(in.Ops, opIn{Kind: "loadver", Svc: s})
+			}
 		case r < 70:
 			in.Ops = append(in.Ops, opIn{Kind: "loadver", Svc: s})
 		case r < 80:
@@ -943,8 +948,57 @@ func genKeys(rng *rand.Rand) input {
 	return in
 }
 
+// genVersions: the database version of 2-3 services: saved, saved again (0 after a
+// non-zero one included, values that wrap to 0 as int32), read, with restarts; the other
+// services' versions must stay what they were (0 on a fresh database).
+func genVersions(rng *rand.Rand) input {
+	perm := rng.Perm(len(isoPool))
+	k := 2 + rng.Intn(2)
+	var names []string
+	for _, i := range perm[:k] {
+		names = append(names, allNames[isoPool[i]])
+	}
+	in := input{Kind: "hist", Class: "versions", Names: names}
+	vers := []int64{0, 0, 0, 1, 3, -1, 7, 2147483647, -2147483648, 4294967296, 4294967299, int64(rng.Intn(100000))}
+	all := func() {
+		for s := range names {
+			in.Ops = append(in.Ops, opIn{Kind: "loadver", Svc: s})
+		}
+	}
+	all()
+	n := 6 + rng.Intn(10)
+	for i := 0; i < n; i++ {
+		s := rng.Intn(k)
+		switch r := rng.Intn(10); {
+		case r < 5:
+			v := vers[rng.Intn(len(vers))]
+			if i == 0 {
+				v = 1 + int64(rng.Intn(50)) // something non-zero first
+			}
+			in.Ops = append(in.Ops, opIn{Kind: "savever", Svc: s, Ver: v}, opIn{Kind: "loadver", Svc: s})
+		case r < 7:
+			in.Ops = append(in.Ops, opIn{Kind: "savever", Svc: s, Ver: 0})
+		case r < 8:
+			in.Ops = append(in.Ops, opIn{Kind: "restart"})
+			all()
+		default:
+			in.Ops = append(in.Ops, opIn{Kind: "loadver", Svc: rng.Intn(k)})
+		}
+	}
+	in.Ops = append(in.Ops, opIn{Kind: "restart"})
+	all()
+	return in
+}
+
 func generate(rng *rand.Rand, tier string) []interface{} {
 	var ins []interface{}
+	nVer := 12
+	if tier != "quick" {
+		nVer = 150
+	}
+	for i := 0; i < nVer; i++ {
+		ins = append(ins, genVersions(rng))
+	}
 	nKeys := 8
 	if tier != "quick" {
 		nKeys = 80
@@ -1032,6 +1086,19 @@ func corpus() []interface{} {
 		}},
 		// values loaded from a large bucket stay what they were, across later writes and a restart
 		bigCorpus(),
+		// the last saved version wins, 0 included, also across a restart
+		input{Kind: "hist", Class: "versions", Names: []string{"Alpha", "Beta"}, Ops: []opIn{
+			{Kind: "loadver", Svc: 0},
+			{Kind: "savever", Svc: 0, Ver: 3},
+			{Kind: "loadver", Svc: 0},
+			{Kind: "savever", Svc: 0, Ver: 0},
+			{Kind: "loadver", Svc: 0},
+			{Kind: "loadver", Svc: 1},
+			{Kind: "restart"},
+			{Kind: "loadver", Svc: 0},
+			{Kind: "savever", Svc: 1, Ver: 4294967296},
+			{Kind: "loadver", Svc: 1},
+		}},
 		// keys bbolt refuses: Save must not report success and then lose the value
 		input{Kind: "hist", Class: "keys", Names: []string{"Alpha", "ElevenBytes"}, Ops: []opIn{
 			{Kind: "save", Svc: 0, Key: []int{7}, Val: 1},
@@ -1081,7 +1148,7 @@ func main() {
 		Import: "Onet.Corr.C16",
 		Rule: "seeded histories of 8-40 (thorough: 8-80) storage operations by 2-4 services with prefix-sharing names on one real server, " +
 			"few shared keys and bucket names, restarts on the same data directory; 'clash' histories use names violating the side condition " +
-			"(model comparison only); 'concurrent' cases run 2-4 savers per key and service with concurrent loaders; 'keys' histories save and load under the keys bbolt refuses (empty, nil, 32769 and more bytes) and the longest accepted key (32768) with valid neighbours; 'big' histories fill buckets " +
+			"(model comparison only); 'concurrent' cases run 2-4 savers per key and service with concurrent loaders; 'versions' histories save the database version repeatedly (0 after a non-zero one, values wrapping to 0) with reads and restarts; 'keys' histories save and load under the keys bbolt refuses (empty, nil, 32769 and more bytes) and the longest accepted key (32768) with valid neighbours; 'big' histories fill buckets " +
 			"beyond bbolt's inline size with 150-330 byte values over many keys; service names of 4-19 bytes (incl. 11, 13, 19); services hold several " +
 			"additional-bucket names at once and request several concurrently; every value / bucket name handed out is re-compared after every later operation and restart; " +
 			"non-trivial = some load returned data; distinct = distinct Coq case term",
